@@ -10,7 +10,7 @@ namespace Narwhal.Pool
 open Narwhal.Generated
 
 theorem pool_table_ok :
-    poolAcquirePermitFirst = true ∧ poolTryAcquirePermitFirst = true ∧ poolReleasePushFirst = true ∧ poolDropPushFirst = true ∧ poolNoUnsafe = true := by
+    poolAcquirePermitFirst = true ∧ poolTryAcquirePermitFirst = true ∧ poolReleasePushFirst = true ∧ poolDropPushFirst = true ∧ poolNoUnsafe = true ∧ poolBucketedWaits = true := by
   decide
 
 end Narwhal.Pool
